@@ -53,3 +53,6 @@ add("C06", "lazy/eager differential under many chunk compositions and schedules 
 add("C12", "differential over fresh interpreters started with different PYTHONHASHSEED (byte-identical canonical records), plus in-process permutation of the link table's insertion order",
     "No model of the right answer is needed: the same seeded scenarios must give identical records under every hash seed tried; "
     "the evidence counts the distinct set iteration orders actually exercised.", "2/C12")
+add("C13", "metamorphic differential: the same role-level call sequence instantiated under ordinary and under hostile injective namings; records compared after mapping labels back",
+    "Every call's accept/reject outcome, role-mapped dims, shape and value hash must be identical under the renaming; hostile "
+    "identifiers cover single letters, position-word fragments, prefix chains, case variants and the library's temporary names.", "2/C13")
